@@ -80,10 +80,10 @@ const POOL: &[PoolVal] = &[
     PoolVal { src: "{1: (1 to 3), \"a\": [(1 to 2)]}", big: false },
     // texts of the builtins' own mini-languages (axis specs of `rearrange`, regular expressions, format and
     // radix texts): well-formed but inconsistent specs must raise, not crash
-    PoolVal { src: "\"a -> a b\"", big: false },
-    PoolVal { src: "\"a b -> b a\"", big: false },
-    PoolVal { src: "\"(a b) c -> a (b c d)\"", big: false },
-    PoolVal { src: "\"(a|b)*[c-\"", big: false },
+    PoolVal { src: "\"a -> a b\"", big: true },
+    PoolVal { src: "\"a b -> b a\"", big: true },
+    PoolVal { src: "\"(a b) c -> a (b c d)\"", big: true },
+    PoolVal { src: "\"(a|b)*[c-\"", big: true },
     PoolVal { src: "[[1, 2], [3, 4]]", big: false },
 ];
 const QUICK_POOL: &[usize] = &[0, 1, 2, 3, 5, 7, 8, 9, 10, 13, 14, 16, 17, 18, 19, 20, 22, 23, 25, 27, 28, 29, 30, 32, 34, 35, 36, 37, 38, 39, 40, 41, 42, 43, 46];
@@ -174,6 +174,11 @@ fn child(args: &Args) {
     for (k, c) in cases.iter().enumerate() {
         if (k as u64) % nshards != shard || c.id < from {
             continue;
+        }
+        if let Some(o) = only_case() {
+            if c.id != o {
+                continue;
+            }
         }
         let f = {
             let env = it.env.borrow();
@@ -331,6 +336,13 @@ fn build_stmts(tier: &str, seed: u64) -> Vec<(usize, String)> {
     out
 }
 
+fn watchdog_ms() -> u64 {
+    std::env::var("C14_WATCHDOG_MS").ok().and_then(|v| v.parse().ok()).unwrap_or(8000)
+}
+fn only_case() -> Option<u64> {
+    std::env::var("C14_ONLY").ok().and_then(|v| v.parse().ok())
+}
+
 /// per-case watchdog of a child process: prints `H <id>` and exits when a case runs longer than 8 s
 fn start_watchdog() -> (Arc<AtomicU64>, Arc<AtomicU64>) {
     let started = Arc::new(AtomicU64::new(0));
@@ -342,7 +354,7 @@ fn start_watchdog() -> (Arc<AtomicU64>, Arc<AtomicU64>) {
         if cur != u64::MAX {
             let t0 = s2.load(Ordering::SeqCst);
             let now = std::time::SystemTime::now().duration_since(std::time::UNIX_EPOCH).unwrap().as_millis() as u64;
-            if now > t0 + 8000 {
+            if now > t0 + watchdog_ms() {
                 println!("H\t{}", cur);
                 let _ = std::io::stdout().flush();
                 std::process::exit(3);
@@ -399,6 +411,11 @@ fn child_stmt(args: &Args) {
         if id % nshards != shard || id < from {
             continue;
         }
+        if let Some(o) = only_case() {
+            if id != o {
+                continue;
+            }
+        }
         {
             let mut o = out.lock();
             let _ = writeln!(o, "S\t{}", id);
@@ -436,6 +453,7 @@ fn run_shards(mode: &'static str, tier: &str, seed: u64) -> Vec<(Vec<(u64, Strin
                 let mut usable: Vec<(u64, String)> = vec![];
                 let mut from = 0u64;
                 let mut restarts = 0;
+                let mut confirmed_hangs = 0;
                 loop {
                     let out = std::process::Command::new(&exe)
                         .args([mode, &shard.to_string(), &nshards.to_string(), &from.to_string(), "--tier", &tier, "--seed", &seed.to_string()])
@@ -454,9 +472,37 @@ fn run_shards(mode: &'static str, tier: &str, seed: u64) -> Vec<(Vec<(u64, Strin
                             }
                             "U" => usable.push((p[1].parse().unwrap(), p[2].to_string())),
                             "H" => {
-                                results.push((p[1].parse().unwrap(), "hang".to_string()));
+                                // a case that exceeded the per-case limit is run again ALONE with a 60 s limit
+                                // before it is believed: on a loaded machine a heavy but terminating case
+                                // must not be reported as a hang
+                                let hid: u64 = p[1].parse().unwrap();
+                                if confirmed_hangs >= 2 {
+                                    // two hangs of this shard were already confirmed: believe the rest
+                                    results.push((hid, "hang".to_string()));
+                                    last_start = None;
+                                    from = hid + 1;
+                                    continue;
+                                }
+                                let again = std::process::Command::new(&exe)
+                                    .args([mode, &shard.to_string(), &nshards.to_string(), &hid.to_string(), "--tier", &tier, "--seed", &seed.to_string()])
+                                    .env("C14_WATCHDOG_MS", "60000")
+                                    .env("C14_ONLY", hid.to_string())
+                                    .output()
+                                    .expect("spawn child");
+                                let atext = String::from_utf8_lossy(&again.stdout).to_string();
+                                let verdict = atext
+                                    .lines()
+                                    .filter_map(|l| {
+                                        let q: Vec<&str> = l.split('\t').collect();
+                                        if q[0] == "R" && q.len() >= 3 && q[1].parse::<u64>().ok() == Some(hid) { Some(q[2].to_string()) } else { None }
+                                    })
+                                    .next();
+                                if verdict.is_none() {
+                                    confirmed_hangs += 1;
+                                }
+                                results.push((hid, verdict.unwrap_or_else(|| "hang".to_string())));
                                 last_start = None;
-                                from = p[1].parse::<u64>().unwrap() + 1;
+                                from = hid + 1;
                             }
                             "D" => done = true,
                             _ => {}
@@ -498,7 +544,7 @@ fn main() {
                 from the pool (35 values quick / 47 thorough: null, ints incl. +-2^63 / 2^64, rational, floats incl. NaN and inf, \
                 complex, strings incl. non-ASCII, lists, dicts with and without default, vectors, bytes incl. non-UTF-8, finite \
                 stream, closures, builtins, containers with an unhashable value nested inside, finite streams whose production raises part-way, advanced list-backed streams) plus sampled 3-tuples, called through Func::run under catch_unwind in child \
-                processes with a 8 s per-case watchdog and a 6 GiB address-space limit; numeric-size builtins are skipped when an \
+                processes with a 8 s per-case watchdog (a case that exceeds it is re-run alone with a 60 s limit before it is reported as a hang) and a 6 GiB address-space limit; numeric-size builtins are skipped when an \
                 argument is astronomically large. Then try/catch containment through source programs, the statement sweep (62 statement templates x pool tuples, also in watchdogged child processes) and fault-injected \
                 generated programs. non-trivial = a call that raised or returned normally with >= 1 argument; distinct = \
                 distinct call text"
